@@ -62,8 +62,8 @@ func sessionStream(reqs []*refcodec.Msg) []byte {
 }
 
 type cutStats struct {
-	handles   int
-	gateHeld  bool
+	handles          int
+	gateHeld         bool
 	closedByTeardown int
 }
 
@@ -175,8 +175,8 @@ func logString(calls []memfs.Call) string {
 // (or a replacing Twalk/Tattach, or Tremove) of the same fid is served.
 type raceCase struct {
 	Native bool   `json:"native_walkgetattr"`
-	Op     string `json:"op"`      // which operation is held
-	Unbind string `json:"unbind"`  // clunk | remove | replace-walk | replace-attach | disconnect
+	Op     string `json:"op"`     // which operation is held
+	Unbind string `json:"unbind"` // clunk | remove | replace-walk | replace-attach | disconnect
 }
 
 var raceOps = []string{"getattr", "read", "write", "readdir", "walk", "walkgetattr", "setattr", "mkdir", "fsync", "readlink", "statfs", "open", "xattrwalk", "unlinkat", "renameat"}
